@@ -165,6 +165,12 @@ def handle (op : String) (args : List String) (impl : Impl) : Option Ans :=
         -- texts: the scale-fixed format of an epoch is the text of its re-expression in that scale, which is also
         -- what Display prints for the re-expressed epoch
         verdict [("same_as_generic_call", x == y), ("same_as_display_of_the_view", x == z)]
+      | .ok ["g", x, y] => (match parseF? x, parseF? y with
+          -- a view in any unit against the days view scaled in binary64: 8 units in the last place
+          | some x, some y =>
+            let bx := x.toBits.toNat; let by' := y.toBits.toNat
+            verdict [("same_as_scaled_days_view", (bx == by') || (x == y) || (bx / 2 ^ 63 == by' / 2 ^ 63 && (if bx ≥ by' then bx - by' else by' - bx) ≤ 8))]
+          | _, _ => "FAIL:decode")
       | .ok ["f", x, y] => (match parseF? x, parseF? y with
           | some x, some y =>
             let bx := x.toBits.toNat; let by' := y.toBits.toNat
